@@ -19,8 +19,8 @@ NOTE = ("Trusted: Lean 4.33 kernel (axioms per theorem are listed in the evidenc
 PROPS = {
     'C01': dict(
         title='merge soundness', proj='proj_shape', oracle='c01',
-        quick=[S_('homonym_rand', count=20000), S_('bind'), S_('merge_pairs'), S_('merge_pairs_stars'), S_('merge_rand', count=20000), S_('merge_roles', count=20000)],
-        thorough=[S_('homonym_rand', count=300000), S_('bind'), S_('merge_pairs'), S_('merge_pairs_stars'), S_('merge_rand', count=300000, maxnamed=4),
+        quick=[S_('probes', nc=1, items=('eq_defaults',)), S_('homonym_rand', count=20000), S_('bind'), S_('merge_pairs'), S_('merge_pairs_stars'), S_('merge_rand', count=20000), S_('merge_roles', count=20000)],
+        thorough=[S_('probes', nc=1, items=('eq_defaults',)), S_('homonym_rand', count=300000), S_('bind'), S_('merge_pairs'), S_('merge_pairs_stars'), S_('merge_rand', count=300000, maxnamed=4),
                   S_('merge_roles', count=300000)],
         runtime_part=BINDER,
         level_text='Soundness of merge for every number of inputs is a theorem about the Lean model of _Merger._merge / merge '
@@ -30,8 +30,8 @@ PROPS = {
     ),
     'C02': dict(
         title='embed', proj='proj_shape', oracle='c02',
-        quick=[S_('homonym_rand', count=20000), S_('bind'), S_('embed_small'), S_('embed_pairs'), S_('embed_rand', count=20000)],
-        thorough=[S_('homonym_rand', count=300000), S_('bind'), S_('embed_small'), S_('embed_pairs', nc=64), S_('embed_rand', count=300000)],
+        quick=[S_('probes', nc=1, items=('eq_defaults',)), S_('homonym_rand', count=20000), S_('bind'), S_('embed_small'), S_('embed_pairs'), S_('embed_rand', count=20000)],
+        thorough=[S_('probes', nc=1, items=('eq_defaults',)), S_('homonym_rand', count=300000), S_('bind'), S_('embed_small'), S_('embed_pairs', nc=64), S_('embed_rand', count=300000)],
         runtime_part=BINDER,
         level_text='Theorems about the Lean model of _embed/embed (soundness w.r.t. the outer-forwards-to-inner composite, parameters of the '
                    'fold, bare outer); correspondence exhaustive on 220x220 pairs, sampled on 220x2493x4 and on triples/quadruples.',
@@ -63,8 +63,8 @@ PROPS = {
     ),
     'C09': dict(
         title='merge precision and laws', proj='proj_shape_errclass', oracle='c09',
-        quick=[S_('bind'), S_('apply'), S_('merge_laws'), S_('merge_pairs'), S_('merge_roles', count=20000), S_('meta_rand', count=20000)],
-        thorough=[S_('bind'), S_('apply'), S_('merge_laws'), S_('merge_pairs'), S_('merge_pairs_stars'), S_('merge_roles', count=300000), S_('meta_rand', count=200000)],
+        quick=[S_('probes', nc=1, items=('eq_defaults',)), S_('bind'), S_('apply'), S_('merge_laws'), S_('merge_pairs'), S_('merge_roles', count=20000), S_('meta_rand', count=20000)],
+        thorough=[S_('probes', nc=1, items=('eq_defaults',)), S_('bind'), S_('apply'), S_('merge_laws'), S_('merge_pairs'), S_('merge_pairs_stars'), S_('merge_roles', count=300000), S_('meta_rand', count=200000)],
         runtime_part=BINDER,
         level_text='Identity, idempotence, neutral-element, round-trip and fold laws are theorems about the Lean model; exactness on aligned inputs is '
                    'checked by the oracle on all aligned pairs of the universe and sampled aligned tuples while its proof is in progress.',
@@ -72,10 +72,10 @@ PROPS = {
     ),
     'C10': dict(
         title='metadata rules', proj='proj_params', oracle='c10',
-        quick=[S_('meta_rand', count=40000), S_('meta_post', count=20000), S_('merge_roles', count=10000),
-               S_('embed_rand', count=10000), S_('forwards_rand', count=20000), S_('maskp')],
-        thorough=[S_('meta_rand', count=500000), S_('meta_post', count=200000), S_('merge_roles', count=100000),
-                  S_('embed_rand', count=100000), S_('forwards_rand', count=200000), S_('maskp'), S_('forwards_exh', nc=32)],
+        quick=[S_('probes', nc=1, items=('eq_defaults',)), S_('meta_rand', count=40000), S_('meta_post', count=20000), S_('merge_roles', count=10000),
+               S_('embed_rand', count=10000), S_('forwards_rand', count=20000), S_('partialfwd', count=600, oracle='c19'), S_('maskp')],
+        thorough=[S_('probes', nc=1, items=('eq_defaults',)), S_('meta_rand', count=500000), S_('meta_post', count=200000), S_('merge_roles', count=100000),
+                  S_('embed_rand', count=100000), S_('forwards_rand', count=200000), S_('partialfwd', count=2000, oracle='c19'), S_('maskp'), S_('forwards_exh', nc=32)],
         runtime_part='equality of default / annotation objects (modelled as token equality)',
         level_text='The one-step conciliation rules and their n-ary lift for defaults are theorems about the Lean model; the n-ary annotation rule is '
                    'refuted on the code as it stands (finding D14: theorem concile_annotation_nary_refuted) and proved under the hypothesis that '
@@ -198,8 +198,8 @@ PROPS = {
     ),
     'C07': dict(
         title='retrieval is total and only narrows', proj='proj_full', oracle='c07',
-        quick=[S_('visitor_corpus', limit=4000), S_('visitor_adv', nc=4), S_('retrieve'), S_('programs', count=16000, routes=('self', 'param'), ops=('pauto',))],
-        thorough=[S_('visitor_corpus'), S_('visitor_adv', nc=4), S_('retrieve'), S_('programs', count=160000, routes=('self', 'param'), ops=('pauto',))],
+        quick=[S_('visitor_corpus', limit=4000), S_('visitor_adv', nc=4), S_('probes', nc=1, items=('adversarial2',)), S_('retrieve'), S_('programs', count=16000, routes=('self', 'param'), ops=('pauto',))],
+        thorough=[S_('visitor_corpus'), S_('visitor_adv', nc=4), S_('probes', nc=1, items=('adversarial2',)), S_('retrieve'), S_('programs', count=160000, routes=('self', 'param'), ops=('pauto',))],
         runtime_part='what inspect, getsource, ast.parse, getattr and Sphinx raise on real objects (validated over the corpus, not proved)',
         level_text='Totality of the AST walker on arbitrary trees (theorem visitor_total: the deferred-call queue always drains) and of the fallback chain of the model; the real retrieval is run over every '
                    'star-taking function and a seeded sample (thorough: all) of the ~2*10^4 callables of the importable standard library and installed packages plus adversarial sources, comparing the '
